@@ -17,6 +17,12 @@ from .values import *  # noqa
 REGISTRY = {}
 CLASS_MODELS = {}  # class short/qual name -> {attr: function(interp, aobj) -> value}
 LEMMAS = {}  # name -> Lemma
+SYNTH_CLASSES = {}  # synthetic class name -> list of base qualnames (symbolic "any subclass of these")
+
+
+def synthetic_class(name, bases):
+    SYNTH_CLASSES[name] = list(bases)
+    return name
 
 
 class BindError(Exception):
